@@ -6,6 +6,8 @@
 //   f <fn> <s1> <s2> <s3> <n1> <n2> <n3>        pure call on fresh operands (strings: hex | - | NULL)
 //   o <fn> <i> <j> <k> <s1> <s2> <n1> <n2>      call on the pool of objects 1..3
 //   reset
+// A number field is a decimal number or the name of a size_t value beyond every buffer (SIZE_MAX, SIZE_MAX-1, 2^32, ...):
+// the call then receives that size_t value; the log carries the name in "hg" (and 0 as the number).
 #include "vh.h"
 #include "CppUTest/SimpleString.h"
 #include "CppUTest/TestMemoryAllocator.h"
@@ -76,16 +78,56 @@ static long pos_of(size_t p) { return p == SimpleString::npos ? -1 : (long) p; }
 
 static bool g_bad = false; static std::string g_why;
 
+// a number operand: small value (v) or a named size beyond every buffer (h, z)
+struct Num {
+    long v; size_t z; std::string h;
+    Num() : v(0), z(0) {}
+};
+static Num num_of(const std::string& f)
+{
+    static const struct { const char* name; size_t value; } huge[] = {
+        { "SIZE_MAX", SIZE_MAX }, { "SIZE_MAX-1", SIZE_MAX - 1 }, { "SIZE_MAX-2", SIZE_MAX - 2 }, { "SIZE_MAX-3", SIZE_MAX - 3 },
+        { "SIZE_MAX/2+1", SIZE_MAX / 2 + 1 }, { "SIZE_MAX/2", SIZE_MAX / 2 },
+        { "2^32", (size_t) 1 << 32 }, { "2^32-1", ((size_t) 1 << 32) - 1 }, { "2^32+1", ((size_t) 1 << 32) + 1 },
+        { "2^31", (size_t) 1 << 31 }, { "2^31+1", ((size_t) 1 << 31) + 1 } };
+    Num n;
+    bool plain = true;
+    for (size_t i = 0; i < f.size(); i++) if (!((f[i] >= '0' && f[i] <= '9') || (i == 0 && f[i] == '-'))) plain = false;
+    if (plain) { n.v = atol(f.c_str()); n.z = (size_t) n.v; return n; }
+    for (size_t i = 0; i < sizeof huge / sizeof huge[0]; i++)
+        if (f == huge[i].name) { n.h = f; n.z = huge[i].value; return n; }
+    g_bad = true; g_why = "unknown size name " + f;
+    return n;
+}
+// the calls that may receive a size beyond every buffer (everything else would allocate or touch that many bytes here)
+static bool huge_allowed(const std::string& fn, int slot, const std::string& s1)
+{
+    if (fn == "substr1" || fn == "findfrom" || fn == "strncmp" || fn == "copytobuf") return slot == 1;
+    if (fn == "substr2" || fn == "sub") return slot == 1 || slot == 2;
+    if (fn == "repeat") return slot == 1 && (s1 == "-" || s1.empty());
+    if (fn == "maskedbits") return slot == 3;
+    return false;
+}
+static std::string jhg(const Num* a, int n)
+{
+    std::string o = "[";
+    for (int i = 0; i < n; i++) { if (i) o += ","; o += vh_jstr(a[i].h); }
+    return o + "]";
+}
+
 // returns the JSON text of the result
-static std::string pure(const std::string& fn, Arg& a1, Arg& a2, Arg& a3, long n1, long n2, long n3)
+static std::string pure(const std::string& fn, Arg& a1, Arg& a2, Arg& a3, const Num* nn)
 {
     std::string r;
+    long n1 = nn[0].v, n2 = nn[1].v, n3 = nn[2].v;
+    size_t z1 = nn[0].z, z2 = nn[1].z, z3 = nn[2].z;
+    (void) z2; (void) n3;
     const char* p1 = a1.p; const char* p2 = a2.p; const char* p3 = a3.p;
 #define S(x) jbytes(str_of(x))
 #define B(x) std::string((x) ? "true" : "false")
 #define N(x) std::to_string((long) (x))
     if (fn == "ctor") { SimpleString s(p1); r = S(s); }
-    else if (fn == "repeat") { SimpleString s(p1, (size_t) n1); r = S(s); }
+    else if (fn == "repeat") { SimpleString s(p1, z1); r = S(s); }
     else if (fn == "copy") { SimpleString a(p1); SimpleString b(a); r = S(b); }
     else if (fn == "plus") { SimpleString a(p1), b(p2); SimpleString c = a + b; r = S(c); }
     else if (fn == "append") { SimpleString a(p1), b(p2); a += b; r = S(a); }
@@ -99,9 +141,9 @@ static std::string pure(const std::string& fn, Arg& a1, Arg& a2, Arg& a3, long n
     else if (fn == "endswith") { SimpleString a(p1), b(p2); r = B(a.endsWith(b)); }
     else if (fn == "count") { SimpleString a(p1), b(p2); r = N(a.count(b)); }
     else if (fn == "find") { SimpleString a(p1); r = N(pos_of(a.find((char) n1))); }
-    else if (fn == "findfrom") { SimpleString a(p1); r = N(pos_of(a.findFrom((size_t) n1, (char) n2))); }
-    else if (fn == "substr1") { SimpleString a(p1); SimpleString s = a.subString((size_t) n1); r = S(s); }
-    else if (fn == "substr2") { SimpleString a(p1); SimpleString s = a.subString((size_t) n1, (size_t) n2); r = S(s); }
+    else if (fn == "findfrom") { SimpleString a(p1); r = N(pos_of(a.findFrom(z1, (char) n2))); }
+    else if (fn == "substr1") { SimpleString a(p1); SimpleString s = a.subString(z1); r = S(s); }
+    else if (fn == "substr2") { SimpleString a(p1); SimpleString s = a.subString(z1, z2); r = S(s); }
     else if (fn == "subfromtill") { SimpleString a(p1); SimpleString s = a.subStringFromTill((char) n1, (char) n2); r = S(s); }
     else if (fn == "split") {
         SimpleString a(p1), b(p2); SimpleStringCollection col; a.split(b, col);
@@ -116,17 +158,19 @@ static std::string pure(const std::string& fn, Arg& a1, Arg& a2, Arg& a3, long n
     else if (fn == "pad") { SimpleString a(p1), b(p2); SimpleString::padStringsToSameLength(a, b, (char) n1); r = "[" + S(a) + "," + S(b) + "]"; }
     else if (fn == "copytobuf") {
         SimpleString a(p1);
-        char* buf = n2 ? NULL : (char*) malloc(n1 ? (size_t) n1 : 1);
-        if (buf) memset(buf, 0xAA, n1 ? (size_t) n1 : 1);
-        a.copyToBuffer(buf, (size_t) n1);
-        r = (buf && n1) ? jbytes(std::string(buf)) : "[]";     // an unterminated buffer is read past its end here: ASan reports it
+        // a claimed size beyond every buffer: the real buffer holds exactly the string and its terminator
+        size_t real = nn[0].h.empty() ? (n1 ? (size_t) n1 : 1) : a1.b.size() + 1;
+        char* buf = n2 ? NULL : (char*) malloc(real);
+        if (buf) memset(buf, 0xAA, real);
+        a.copyToBuffer(buf, z1);
+        r = (buf && z1) ? jbytes(std::string(buf)) : "[]";     // an unterminated buffer is read past its end here: ASan reports it
         if (buf) free(buf);
     }
     else if (fn == "at") { SimpleString a(p1); r = N((unsigned char) a.at((size_t) n1)); }
     else if (fn == "size") { SimpleString a(p1); r = N(a.size()); }
     else if (fn == "isempty") { SimpleString a(p1); r = B(a.isEmpty()); }
     else if (fn == "strcmp") r = N(sgn(SimpleString::StrCmp(p1, p2)));
-    else if (fn == "strncmp") r = N(sgn(SimpleString::StrNCmp(p1, p2, (size_t) n1)));
+    else if (fn == "strncmp") r = N(sgn(SimpleString::StrNCmp(p1, p2, z1)));
     else if (fn == "strlen") r = N(SimpleString::StrLen(p1));
     else if (fn == "strncpy") {
         char* dst = (char*) malloc(n1 ? (size_t) n1 : 1);
@@ -160,7 +204,7 @@ static std::string pure(const std::string& fn, Arg& a1, Arg& a2, Arg& a3, long n
         unsigned long v = 0, m = 0;
         for (size_t i = 0; i < a1.b.size(); i++) v |= 1UL << (unsigned char) a1.b[i];
         for (size_t i = 0; i < a2.b.size(); i++) m |= 1UL << (unsigned char) a2.b[i];
-        SimpleString s = StringFromMaskedBits(v, m, (size_t) n3); r = S(s);
+        SimpleString s = StringFromMaskedBits(v, m, z3); r = S(s);
     }
     else if (fn == "ordinal") { SimpleString s = StringFromOrdinalNumber((unsigned int) n1); r = S(s); }
     else { g_bad = true; g_why = "unknown fn " + fn; }
@@ -171,8 +215,9 @@ static std::string pure(const std::string& fn, Arg& a1, Arg& a2, Arg& a3, long n
 static const int NOBJ = 3;
 static SimpleString* obj[NOBJ + 1];
 
-static void object_call(const std::string& fn, int i, int j, int k, Arg& a1, Arg& a2, long n1, long n2)
+static void object_call(const std::string& fn, int i, int j, int k, Arg& a1, Arg& a2, const Num* nn)
 {
+    long n1 = nn[0].v, n2 = nn[1].v;
     bool okI = i >= 1 && i <= NOBJ, okJ = j >= 1 && j <= NOBJ, okK = k >= 1 && k <= NOBJ;
 #define NEEDI if (!okI || !obj[i]) { g_bad = true; g_why = "object i"; return; }
 #define NEEDJ if (!okJ || !obj[j]) { g_bad = true; g_why = "object j"; return; }
@@ -185,7 +230,7 @@ static void object_call(const std::string& fn, int i, int j, int k, Arg& a1, Arg
     else if (fn == "replacech") { NEEDI obj[i]->replace((char) n1, (char) n2); }
     else if (fn == "replacestr") { NEEDI obj[i]->replace(a1.p, a2.p); }
     else if (fn == "pad") { NEEDI NEEDJ SimpleString::padStringsToSameLength(*obj[i], *obj[j], (char) n1); }
-    else if (fn == "sub") { NEEDI NEEDJ *obj[i] = obj[j]->subString((size_t) n1, (size_t) n2); }
+    else if (fn == "sub") { NEEDI NEEDJ *obj[i] = obj[j]->subString(nn[0].z, nn[1].z); }
     else if (fn == "lower") { NEEDI NEEDJ *obj[i] = obj[j]->lowerCase(); }
     else if (fn == "plus") { NEEDI NEEDJ NEEDK *obj[i] = *obj[j] + *obj[k]; }
     else if (fn == "printable") { NEEDI NEEDJ *obj[i] = obj[j]->printable(); }
@@ -227,21 +272,29 @@ int main(int argc, char** argv)
             bool blk1 = fn == "memcmp" || fn == "binary" || fn == "binaryornull" || fn == "binarysize" || fn == "binarysizeornull" || fn == "maskedbits";
             bool blk2 = fn == "memcmp" || fn == "maskedbits";
             Arg a1 = mk(f[2], blk1), a2 = mk(f[3], blk2), a3 = mk(f[4], false);
-            long n1 = atol(f[5].c_str()), n2 = atol(f[6].c_str()), n3 = atol(f[7].c_str());
-            std::string r = pure(fn, a1, a2, a3, n1, n2, n3);
+            Num nn[3];
+            for (int q = 0; q < 3 && !g_bad; q++) {
+                nn[q] = num_of(f[5 + q]);
+                if (!g_bad && !nn[q].h.empty() && !huge_allowed(fn, q + 1, f[2])) { g_bad = true; g_why = "size beyond every buffer not supported for operand " + std::to_string(q + 1) + " of " + fn; }
+            }
+            std::string r = g_bad ? std::string() : pure(fn, a1, a2, a3, nn);
             if (!g_bad)
-                fprintf(out, "{\"op\":\"f\",\"fn\":%s,\"s1\":%s,\"s2\":%s,\"s3\":%s,\"n1\":%ld,\"n2\":%ld,\"n3\":%ld,\"res\":%s,\"ev\":%s}\n",
-                        vh_jstr(fn).c_str(), jarg(a1).c_str(), jarg(a2).c_str(), jarg(a3).c_str(), n1, n2, n3, r.c_str(), jev().c_str());
+                fprintf(out, "{\"op\":\"f\",\"fn\":%s,\"s1\":%s,\"s2\":%s,\"s3\":%s,\"n1\":%ld,\"n2\":%ld,\"n3\":%ld,\"hg\":%s,\"res\":%s,\"ev\":%s}\n",
+                        vh_jstr(fn).c_str(), jarg(a1).c_str(), jarg(a2).c_str(), jarg(a3).c_str(), nn[0].v, nn[1].v, nn[2].v, jhg(nn, 3).c_str(), r.c_str(), jev().c_str());
             drop(a1); drop(a2); drop(a3);
         } else if (f[0] == "o") {
             const std::string& fn = f[1];
             int i = atoi(f[2].c_str()), j = atoi(f[3].c_str()), k = atoi(f[4].c_str());
             Arg a1 = mk(f[5], false), a2 = mk(f[6], false);
-            long n1 = atol(f[7].c_str()), n2 = atol(f[8].c_str());
-            object_call(fn, i, j, k, a1, a2, n1, n2);
+            Num nn[2];
+            for (int q = 0; q < 2 && !g_bad; q++) {
+                nn[q] = num_of(f[7 + q]);
+                if (!g_bad && !nn[q].h.empty() && !huge_allowed(fn, q + 1, "")) { g_bad = true; g_why = "size beyond every buffer not supported for object call " + fn; }
+            }
+            if (!g_bad) object_call(fn, i, j, k, a1, a2, nn);
             if (!g_bad)
-                fprintf(out, "{\"op\":\"o\",\"fn\":%s,\"i\":%d,\"j\":%d,\"k\":%d,\"s1\":%s,\"s2\":%s,\"n1\":%ld,\"n2\":%ld,\"vals\":%s,\"ev\":%s}\n",
-                        vh_jstr(fn).c_str(), i, j, k, jarg(a1).c_str(), jarg(a2).c_str(), n1, n2, jvals().c_str(), jev().c_str());
+                fprintf(out, "{\"op\":\"o\",\"fn\":%s,\"i\":%d,\"j\":%d,\"k\":%d,\"s1\":%s,\"s2\":%s,\"n1\":%ld,\"n2\":%ld,\"hg\":%s,\"vals\":%s,\"ev\":%s}\n",
+                        vh_jstr(fn).c_str(), i, j, k, jarg(a1).c_str(), jarg(a2).c_str(), nn[0].v, nn[1].v, jhg(nn, 2).c_str(), jvals().c_str(), jev().c_str());
             drop(a1); drop(a2);
         } else { g_bad = true; g_why = "unknown op " + f[0]; }
         if (g_bad) { fprintf(out, "{\"op\":\"harness-error\",\"what\":%s,\"line\":%s}\n", vh_jstr(g_why).c_str(), vh_jstr(line).c_str()); break; }
